@@ -41,12 +41,12 @@ func DecodeJson(r io.Reader, cont Proc) *Proc {
 
 		case bool:
 			token.Kind = KindBool
-			token.Value = token
+			token.Value = jsonToken
 			return proc, nil
 
 		case float64:
 			token.Kind = KindFloat64
-			token.Value = token
+			token.Value = jsonToken
 			return proc, nil
 
 		case json.Number:
@@ -56,7 +56,7 @@ func DecodeJson(r io.Reader, cont Proc) *Proc {
 
 		case string:
 			token.Kind = KindString
-			token.Value = token
+			token.Value = jsonToken
 			return proc, nil
 
 		case nil:
